@@ -155,4 +155,23 @@ def emptyOkNaNB [LT α] [DecidableLT α] (b : Box (NV α)) (e : Bool) : Bool :=
   if kx == 0 || ky == 0 then e else if kx == 1 && ky == 1 then !e else true
 
 end Spec
+
+/-! ## which geometries with NaN coordinates get the envelope clause (phase 4: `*Bounds` members with value sides too) -/
+
+/-- the geometry is itself a `*Bounds` value -/
+def isBox : Geom α → Bool
+  | .bounds _ _ => true
+  | _ => false
+
+mutual
+/-- every `*Bounds` value (at any depth) has four value sides; the other members may carry any NaN -/
+def noNaNBoxes : Geom (NV α) → Bool
+  | .bounds mn mx => Spec.isVal mn.x && Spec.isVal mn.y && Spec.isVal mx.x && Spec.isVal mx.y
+  | .collection gs => noNaNBoxesL gs
+  | _ => true
+def noNaNBoxesL : List (Geom (NV α)) → Bool
+  | [] => true
+  | g :: gs => noNaNBoxes g && noNaNBoxesL gs
+end
+
 end GeomV.C04
